@@ -18,6 +18,9 @@ import OFV.Proofs.C05Iop8
 import OFV.Proofs.C05Bksf
 import OFV.Proofs.C05BksfNum
 import OFV.Proofs.C05BksfTwo
+import OFV.Proofs.C05BksfTwo2
+import OFV.Properties.C04
+import OFV.Proofs.C05Mul
 
 namespace OFV.C05
 open OFV OFV.Spec OFV.Model OFV.Model.C05 OFV.Sem OFV.BK OFV.BKT
@@ -535,6 +538,80 @@ theorem tree_equiv_bk (tol : Rat) (htol : tol * tol ≤ 1 / 4) (n : Nat) (A : Mo
       = GV.coeff (applyOp .qubit (bkFermion tol n A) [Spec.C05.enc .bk n s]) [Spec.C05.enc .bk n s'] := by
   rw [tree_exact tol htol n A hA hok' s s', bk_exact tol htol n A hA hok s s']
 
+/-! ### the Bravyi-Kitaev transforms are the Jordan-Wigner transform conjugated by the relabelling `enc` -/
+
+/-- **`bravyi_kitaev(A)` is `jordan_wigner(A)` in relabelled basis states**: `⟨enc s'| bk(A) |enc s⟩ = ⟨s'| jw(A) |s⟩` for
+every FermionOperator on modes `< n`, every `n`, all occupation masks — in particular the two are isospectral and
+expectation values agree.  (Model functions of both library transforms; exact-regime flags of both runs.) -/
+theorem bk_equiv_jw (tol : Rat) (htol : tol * tol ≤ 1 / 4) (n : Nat) (A : Model.Op)
+    (hA : ∀ tc ∈ A, ∀ f ∈ tc.1, f.1 < n ∧ f.2 ≤ 1) (hok : bkFermionOk tol n A = true)
+    (hokJ : Model.C04.jwFermionOk tol A = true) (s s' : Nat) :
+    GV.coeff (applyOp .qubit (bkFermion tol n A) [Spec.C05.enc .bk n s]) [Spec.C05.enc .bk n s']
+      = GV.coeff (applyOp .qubit (Model.C04.jwFermion tol A) [s]) [s'] := by
+  rw [bk_exact tol htol n A hA hok s s',
+    OFV.C04.jw_exact tol htol A (fun tc h f hf => (hA tc h f hf).2) hokJ s s']
+
+/-- the same for `bravyi_kitaev_tree` -/
+theorem tree_equiv_jw (tol : Rat) (htol : tol * tol ≤ 1 / 4) (n : Nat) (A : Model.Op)
+    (hA : ∀ tc ∈ A, ∀ f ∈ tc.1, f.1 < n ∧ f.2 ≤ 1) (hok : bkTreeFermionOk tol n A = true)
+    (hokJ : Model.C04.jwFermionOk tol A = true) (s s' : Nat) :
+    GV.coeff (applyOp .qubit (bkTreeFermion tol n A) [Spec.C05.enc .tree n s]) [Spec.C05.enc .tree n s']
+      = GV.coeff (applyOp .qubit (Model.C04.jwFermion tol A) [s]) [s'] := by
+  rw [tree_exact tol htol n A hA hok s s',
+    OFV.C04.jw_exact tol htol A (fun tc h f hf => (hA tc h f hf).2) hokJ s s']
+
+/-- **`bravyi_kitaev` preserves Hermiticity and is faithful** (on the encoded basis states, which are all `n`-qubit
+basis states): `bk(A)` is Hermitian exactly when `A` is, and `bk(A)`, `bk(B)` agree exactly when `A`, `B` do -/
+theorem bk_hermitian_iff_and_faithful (tol : Rat) (htol : tol * tol ≤ 1 / 4) (n : Nat) (A B : Model.Op)
+    (hA : ∀ tc ∈ A, ∀ f ∈ tc.1, f.1 < n ∧ f.2 ≤ 1) (hB : ∀ tc ∈ B, ∀ f ∈ tc.1, f.1 < n ∧ f.2 ≤ 1)
+    (hokA : bkFermionOk tol n A = true) (hokB : bkFermionOk tol n B = true) :
+    ((∀ s s', GV.coeff (applyOp .qubit (bkFermion tol n A) [Spec.C05.enc .bk n s]) [Spec.C05.enc .bk n s']
+        = (GV.coeff (applyOp .qubit (bkFermion tol n A) [Spec.C05.enc .bk n s']) [Spec.C05.enc .bk n s]).conj)
+      ↔ (∀ s s', GV.coeff (applyOp .fermion A [s]) [s'] = (GV.coeff (applyOp .fermion A [s']) [s]).conj))
+    ∧ ((∀ s s', GV.coeff (applyOp .qubit (bkFermion tol n A) [Spec.C05.enc .bk n s]) [Spec.C05.enc .bk n s']
+        = GV.coeff (applyOp .qubit (bkFermion tol n B) [Spec.C05.enc .bk n s]) [Spec.C05.enc .bk n s'])
+      ↔ (∀ s s', GV.coeff (applyOp .fermion A [s]) [s'] = GV.coeff (applyOp .fermion B [s]) [s'])) := by
+  refine ⟨⟨fun h s s' => ?_, fun h s s' => ?_⟩, ⟨fun h s s' => ?_, fun h s s' => ?_⟩⟩
+  · rw [← bk_exact tol htol n A hA hokA s s', ← bk_exact tol htol n A hA hokA s' s]; exact h s s'
+  · rw [bk_exact tol htol n A hA hokA s s', bk_exact tol htol n A hA hokA s' s]; exact h s s'
+  · rw [← bk_exact tol htol n A hA hokA s s', ← bk_exact tol htol n B hB hokB s s']; exact h s s'
+  · rw [bk_exact tol htol n A hA hokA s s', bk_exact tol htol n B hB hokB s s']; exact h s s'
+
+/-- **linearity** of `bravyi_kitaev` on the encoded states -/
+theorem bk_linear (tol : Rat) (htol : tol * tol ≤ 1 / 4) (n : Nat) (A B : Model.Op) (c : GQ)
+    (hA : ∀ tc ∈ A, ∀ f ∈ tc.1, f.1 < n ∧ f.2 ≤ 1) (hB : ∀ tc ∈ B, ∀ f ∈ tc.1, f.1 < n ∧ f.2 ≤ 1)
+    (hokA : bkFermionOk tol n A = true) (hokB : bkFermionOk tol n B = true)
+    (hadd : Model.C04.iaddOk tol A (smul c B) = true) (hokS : bkFermionOk tol n (iadd tol A (smul c B)) = true)
+    (s s' : Nat) :
+    GV.coeff (applyOp .qubit (bkFermion tol n (iadd tol A (smul c B))) [Spec.C05.enc .bk n s]) [Spec.C05.enc .bk n s']
+      = GV.coeff (applyOp .qubit (bkFermion tol n A) [Spec.C05.enc .bk n s]) [Spec.C05.enc .bk n s']
+        + c * GV.coeff (applyOp .qubit (bkFermion tol n B) [Spec.C05.enc .bk n s]) [Spec.C05.enc .bk n s'] := by
+  have hS : ∀ tc ∈ iadd tol A (smul c B), ∀ f ∈ tc.1, f.1 < n ∧ f.2 ≤ 1 :=
+    Jel.iadd_keys (P := fun t => ∀ f ∈ t, f.1 < n ∧ f.2 ≤ 1) tol hA
+      (Jel.smul_keys (P := fun t => ∀ f ∈ t, f.1 < n ∧ f.2 ≤ 1) c hB)
+  rw [bk_exact tol htol n _ hS hokS s s', bk_exact tol htol n A hA hokA s s', bk_exact tol htol n B hB hokB s s']
+  change den .fermion _ _ _ = den .fermion _ _ _ + c * den .fermion _ _ _
+  rw [den_iadd .fermion tol _ _ _ _ hadd, Sem.den_smul]
+
+/-- **multiplicativity of `bravyi_kitaev`**: on the encoded basis states `bravyi_kitaev(A) * bravyi_kitaev(B)`
+(QubitOperator product) has the matrix elements of `A * B` (FermionOperator product) and hence of
+`bravyi_kitaev(A * B)` — every pair of FermionOperators on modes `< n`, every `n` -/
+theorem bk_multiplicative (tol : Rat) (htol : tol * tol ≤ 1 / 4) (n : Nat) (A B : Model.Op)
+    (hA : ∀ tc ∈ A, ∀ f ∈ tc.1, f.1 < n ∧ f.2 ≤ 1) (hB : ∀ tc ∈ B, ∀ f ∈ tc.1, f.1 < n ∧ f.2 ≤ 1)
+    (hokA : bkFermionOk tol n A = true) (hokB : bkFermionOk tol n B = true)
+    (hokAB : bkFermionOk tol n (mulOp .fermion A B) = true) (s s' : Nat) :
+    GV.coeff (applyOp .qubit (mulOp .qubit (bkFermion tol n A) (bkFermion tol n B)) [Spec.C05.enc .bk n s])
+        [Spec.C05.enc .bk n s'] = GV.coeff (applyOp .fermion (mulOp .fermion A B) [s]) [s']
+    ∧ GV.coeff (applyOp .qubit (bkFermion tol n (mulOp .fermion A B)) [Spec.C05.enc .bk n s]) [Spec.C05.enc .bk n s']
+        = GV.coeff (applyOp .qubit (mulOp .qubit (bkFermion tol n A) (bkFermion tol n B)) [Spec.C05.enc .bk n s])
+          [Spec.C05.enc .bk n s'] := by
+  have h1 := bk_mul_den tol htol n A B hA hB hokA hokB (fun y x => bk_exact tol htol n A hA hokA y x) s s'
+  refine ⟨h1, ?_⟩
+  have hAB : ∀ tc ∈ mulOp .fermion A B, ∀ f ∈ tc.1, f.1 < n ∧ f.2 ≤ 1 :=
+    mulOpF_keys_gen (P := ValidT n) (validT_append n) hA hB
+  have h2 := bk_exact tol htol n _ hAB hokAB s s'
+  exact h2.trans h1.symm
+
 /-! ### Bravyi-Kitaev superfast (`bksf.py`): the edge operators satisfy the edge algebra, for every graph
 
 `E` is `edge_matrix_indices` as the list of its columns (qubit `e` on edge `e`); `edgeB tol E i` and
@@ -658,6 +735,30 @@ theorem bksf_two_body_four_index_sound (tol : Rat) (htol : tol * tol ≤ 1 / 4) 
         then -GV.coeff (applyOp .qubit (mulOp .qubit Apq Ars) [m]) [x] else 0 :=
   twoBody4_sound tol htol E hE p q r s hnd Apq Ars t hA1 hA2 ht hok m x
 
+/-- **`_two_body` with two distinct indices is `± n_p n_q`**: diagonal in the edge-qubit basis, `+1` (when `p = s`,
+i.e. `a†_p a†_q a_q a_p`) resp. `-1` (`a†_p a†_q a_p a_q`) exactly on the basis states where both vertices are occupied
+(occupation = parity of the incident edge qubits) — every graph without loops, every basis state -/
+theorem bksf_two_body_two_index_sound (tol : Rat) (htol : tol * tol ≤ 1 / 4) (E : Model.Bksf.Edges) (hE : NoLoops E)
+    (p q r s : Nat) (hnd : Model.Bksf.nDistinct4 p q r s = 2) (t : Model.Op)
+    (ht : Model.Bksf.twoBody tol E p q r s = some t) (hok : Model.Bksf.twoBody2Ok tol E p q s = true) (m x : Nat) :
+    GV.coeff (applyOp .qubit t [m]) [x]
+      = if m = x then (if p = s then 1 else -1) * (if occV E p m && occV E q m then 1 else 0) else 0 :=
+  twoBody2_sound tol htol E hE p q r s hnd t ht hok m x
+
+/-- **`_two_body` with three distinct indices is the number-excitation `n_z (a†_x a_y + h.c.)`** in edge-operator form:
+with `(x, y, z, phase) = threeIdx p q r s` (the selection the code makes by which two indices coincide) it is
+`phase/2 · (A_xy B_y + B_x A_xy)` on the basis states where the spectator vertex `z` is occupied and `0` on all others -/
+theorem bksf_two_body_three_index_sound (tol : Rat) (htol : tol * tol ≤ 1 / 4) (E : Model.Bksf.Edges) (hE : NoLoops E)
+    (p q r s : Nat) (hnd : Model.Bksf.nDistinct4 p q r s = 3) (hsel : p = r ∨ p = s ∨ q = r ∨ q = s) (A t : Model.Op)
+    (hA : Model.Bksf.edgeA tol E (Model.Bksf.threeIdx p q r s).1 (Model.Bksf.threeIdx p q r s).2.1 = some A)
+    (ht : Model.Bksf.twoBody tol E p q r s = some t) (hok : Model.Bksf.twoBody3Ok tol E p q r s = true) (m x : Nat) :
+    GV.coeff (applyOp .qubit t [m]) [x]
+      = (if occV E (Model.Bksf.threeIdx p q r s).2.2.1 m then Model.Bksf.halfQ else 0)
+        * (Model.Bksf.threeIdx p q r s).2.2.2
+        * (GV.coeff (applyOp .qubit (mulOp .qubit A (Model.Bksf.edgeB tol E (Model.Bksf.threeIdx p q r s).2.1)) [m]) [x]
+          + GV.coeff (applyOp .qubit (mulOp .qubit (Model.Bksf.edgeB tol E (Model.Bksf.threeIdx p q r s).1) A) [m]) [x]) :=
+  twoBody3_sound tol htol E hE p q r s hnd hsel A t hA ht hok m x
+
 /-! ### non-vacuity -/
 
 example : Generated.eqTolerance * Generated.eqTolerance ≤ 1 / 4 := by
@@ -768,6 +869,34 @@ example :
   refine ⟨by decide +kernel, by decide +kernel, by decide +kernel, by decide +kernel, by decide +kernel,
     by decide +kernel, by decide +kernel⟩
 
+/-- hypotheses of `bksf_two_body_two_index_sound` / `bksf_two_body_three_index_sound` on the 4-cycle with a pendant
+vertex: index patterns, exact-regime flags, the needed edge operator, for all four three-index patterns -/
+example :
+    let E : Model.Bksf.Edges := [(0, 1), (0, 3), (1, 2), (2, 3), (3, 4)]
+    Model.Bksf.nDistinct4 1 3 3 1 = 2 ∧ Model.Bksf.twoBody2Ok Generated.eqTolerance E 1 3 1 = true
+    ∧ Model.Bksf.nDistinct4 1 3 1 3 = 2 ∧ Model.Bksf.twoBody2Ok Generated.eqTolerance E 1 3 3 = true
+    ∧ (∀ t ∈ [(3, 0, 3, 1), (3, 0, 1, 3), (0, 3, 3, 1), (0, 3, 1, 3)],
+        Model.Bksf.nDistinct4 t.1 t.2.1 t.2.2.1 t.2.2.2 = 3
+        ∧ Model.Bksf.twoBody3Ok Generated.eqTolerance E t.1 t.2.1 t.2.2.1 t.2.2.2 = true
+        ∧ (Model.Bksf.edgeA Generated.eqTolerance E (Model.Bksf.threeIdx t.1 t.2.1 t.2.2.1 t.2.2.2).1
+            (Model.Bksf.threeIdx t.1 t.2.1 t.2.2.1 t.2.2.2).2.1).isSome = true
+        ∧ (Model.Bksf.twoBody Generated.eqTolerance E t.1 t.2.1 t.2.2.1 t.2.2.2).isSome = true) := by
+  intro E
+  refine ⟨by decide +kernel, by decide +kernel, by decide +kernel, by decide +kernel, by decide +kernel⟩
+
+/-- the hypotheses of `bk_equiv_jw` / `tree_equiv_jw` / `bk_linear` on concrete operators, `n = 6` -/
+example :
+    let A : Model.Op := [([(4, 1), (1, 0)], ⟨2, 0⟩), ([(1, 0), (4, 1)], ⟨-(mkRat 1 2), 0⟩), ([(5, 1)], ⟨0, 1⟩)]
+    let B : Model.Op := [([(4, 1), (1, 0)], ⟨0, 1⟩), ([(3, 1), (3, 0)], ⟨mkRat 3 4, 0⟩)]
+    bkFermionOk Generated.eqTolerance 6 A = true ∧ bkTreeFermionOk Generated.eqTolerance 6 A = true
+    ∧ Model.C04.jwFermionOk Generated.eqTolerance A = true ∧ bkFermionOk Generated.eqTolerance 6 B = true
+    ∧ Model.C04.iaddOk Generated.eqTolerance A (smul ⟨0, 2⟩ B) = true
+    ∧ bkFermionOk Generated.eqTolerance 6 (iadd Generated.eqTolerance A (smul ⟨0, 2⟩ B)) = true
+    ∧ bkFermionOk Generated.eqTolerance 6 (mulOp .fermion A B) = true := by
+  intro A B
+  refine ⟨by decide +kernel, by decide +kernel, by decide +kernel, by decide +kernel, by decide +kernel,
+    by decide +kernel, by decide +kernel⟩
+
 example : ∀ m ∈ [11, 0, 3, 11, 4], m / 2 < 6 := by decide
 
 /-- the exact-regime hypothesis of `tree_exact` on a concrete operator, `n = 6` (tree ≠ Fenwick there) -/
@@ -781,13 +910,11 @@ example : bkTreeFermionOk Generated.eqTolerance 6
 * Bravyi-Kitaev superfast: the edge matrix, `_one_body`, `_two_body`, the assembled `bravyi_kitaev_fast` and
   `number_operator` are modelled (`Model/C05Bksf.lean`) and compared exactly with the library; proved: the edge
   algebra (`bksf_*_relation`), the edge list is a simple graph, `number_operator`, `_one_body`, and `_two_body` for
-  four distinct indices (the double excitation).  NOT proved: the image formulas of `_two_body` for 3 / 2 distinct
-  indices, that the selection of tensor entries of the main loop
+  four (double excitation), three (number-excitation) and two (`± n_p n_q`) distinct indices.  NOT proved: that the selection of tensor entries of the main loop
   adds up to the edge-algebra image of the whole Hamiltonian (false in general for the pinned source: known findings
   F05-bksf-complex-coefficients, F05-bksf-missing-edge), the fermionic
   identities expressing a†a-monomials by Majorana edge operators, `vacuum_operator` (networkx cycle basis; no Model),
   and the isomorphism of the stabiliser subspace with the even-parity Fock space.
-* isospectrality with Jordan-Wigner / preservation of expectation values as separate statements (they follow from
-  `bk_exact` + `bk_enc_injective`: the transformed operator is the Jordan-Wigner one conjugated by the relabelling). -/
+* multiplicativity of `bravyi_kitaev_tree` (same proof as `bk_multiplicative`, not restated). -/
 
 end OFV.C05
